@@ -20,6 +20,8 @@ rec = {}
 try:
     rec['demo_clean_exit'] = sh(f'/venv/bin/python {demo} {wt}', timeout=600).returncode
     ap = sh(f'git -C {wt} apply {patch}')
+    if ap.returncode:       # /repo may have moved on since the sub-agent's worktree was made
+        ap = sh(f'git -C {wt} apply --3way {patch}')
     rec['applies'] = ap.returncode == 0
     if not rec['applies']:
         print('PATCH DOES NOT APPLY', ap.stderr[:300]); sys.exit(3)
@@ -39,7 +41,7 @@ if ok:
     sh(f'git -C /repo worktree remove --force {rw}')
     assert sh(f'git -C /repo worktree add -q --detach {rw} HEAD').returncode == 0
     try:
-        assert sh(f'git -C {rw} apply {patch}').returncode == 0
+        assert sh(f'git -C {rw} apply {patch}').returncode == 0 or sh(f'git -C {rw} apply --3way {patch}').returncode == 0
         for c in checks:
             r = subprocess.run(f'cd /verif && VERIF_EVIDENCE_DIR=/tmp/seedrun_evidence ./check {c} --tier quick', shell=True, text=True,
                                capture_output=True, env=dict(env, DARR_REPO=rw), timeout=3600)
